@@ -268,6 +268,13 @@ class C03Unit(object):
                         'serverHello.getExtension(ExtensionType.extended_master_secret)':
                     return '(3, 0)' in ast.unparse(node)
             raise Refuse('_handshakeClientAsyncHelper: extended_master_secret test not found')
+        def server_chain_covers_dsa():
+            # the `if` whose body is `serverCertChain = cert_chain` in the TLS <= 1.2 server
+            f = find_func(conn_tree, 'TLSConnection', '_handshakeServerAsyncHelper')
+            for node in ast.walk(f):
+                if isinstance(node, ast.If) and any(ast.unparse(b) == 'serverCertChain = cert_chain' for b in node.body):
+                    return 'dheDsaSuites' in ast.unparse(node.test)
+            raise Refuse('_handshakeServerAsyncHelper: `serverCertChain = cert_chain` not found')
         cke = src('_clientKeyExchange')
         return [
             ('fix_dh_size', 'dhGroupSize' in cke and 'settings.minKeySize' in cke),
@@ -282,6 +289,7 @@ class C03Unit(object):
             ('fix_internal_error_anon', 'TLSInternalError' in src('_serverAnonKeyExchange')),
             ('fix_req_ems_tls13', ems_test_mentions_13()),
             ('fix_sigalg_assert', 'assert sig_list' not in src('_clientSendClientHello')),
+            ('fix_dhe_dsa_chain', server_chain_covers_dsa()),
         ]
 
     # ---------------------------------------------------------------- main
